@@ -4,7 +4,7 @@ the real text (conditions, literals, argument expressions) flows through them,
 so a change to that text changes the verified text."""
 import re
 from . import lexer
-from .weaver import LostAnchor
+from .weaver import LostAnchor, inv_text
 
 WORLD_PARAM = "Tracked(w): Tracked<&mut World>"
 WORLD_ARG = "Tracked(w)"
@@ -242,9 +242,7 @@ def r3_for_filter(w, iter_name, invariants, nth=0, decreases=None):
         raise LostAnchor("unexpected adapter after filter in %s" % w.qual())
     cond2 = re.sub(r"\b%s\b" % re.escape(p), var, cond)
     cb = lexer.match_close(w.body, ob)
-    inv = "\n    invariant\n" + "".join("        %s,\n" % x for x in invariants)
-    if decreases:
-        inv += "    decreases %s\n" % decreases
+    inv = inv_text(invariants, decreases)
     w.replace(mm.end(), ob, "%s: %s.iter()%s" % (iter_name, recv, inv), "R3",
               "for over filter(|%s| %s) -> for + if" % (p, cond))
     w.insert_at(ob + 1, " if %s {" % cond2, "R3", "filter condition as if")
@@ -268,8 +266,7 @@ def r4_for_to_while(w, nth, invariants, idx="__i"):
         raise LostAnchor("for header %r in %s is not `x in E.iter()`" % (hdr.strip(), w.qual()))
     var, recv = m.group(1), m.group(2)
     cb = lexer.match_close(w.body, ob)
-    inv = "\n    invariant\n" + "".join("        %s,\n" % x for x in invariants)
-    inv += "    decreases %s.len() - %s\n" % (recv, idx)
+    inv = inv_text(invariants, "%s.len() - %s" % (recv, idx))
     w.replace(s, ob, "{ let mut %s: usize = 0; while %s < %s.len()%s" % (idx, idx, recv, inv), "R4",
               "for %s in %s.iter() with `continue` -> index while loop" % (var, recv))
     w.insert_at(ob + 1, " let %s = &%s[%s]; %s += 1;" % (var, recv, idx, idx), "R4", "element binding + increment")
@@ -393,3 +390,32 @@ def r6_str_slice(w, receivers):
             w.replace(s, pc + 1, "str_slice(%s, %s, %s)" % (r, a, b), "R6", "str range index -> shim with char-boundary precondition")
             n += 1
     return n
+
+
+# ----------------------------------------------------------------------------
+# R9: the run's single ID counter
+# ----------------------------------------------------------------------------
+
+def r9_counter(w):
+    """`let x = C.fetch_add(n, ORD);` -> followed by the sequential-counter axiom.
+    `C.fetch_update(ORD, ORD, |v| EXPR)` -> `counter_fetch_update(C, Tracked(w))`; returns the closure (param, EXPR)
+    texts so the unit can emit a helper proving what the closure computes."""
+    closures = []
+    for h in re.finditer(r"let\s+(\w+)\s*=\s*(\w+)\s*\.fetch_add\(\s*(\w+)\s*,", w.mbody):
+        end = lexer.stmt_end(w.body, h.start())
+        w.insert_at(end, " proof { axiom_fetch_add(w, %s, %s); }" % (h.group(1), h.group(3)), "R9", "sequential counter axiom after fetch_add")
+    for h in re.finditer(r"(\w+)\s*\.fetch_update\s*\(", w.mbody):
+        po = h.end() - 1
+        pc = lexer.match_close(w.body, po)
+        inner = w.body[po + 1:pc]
+        parts = split_top_commas(inner)
+        if len(parts) != 3:
+            raise LostAnchor("fetch_update argument shape in %s" % w.qual())
+        clo = inner[parts[2][0]:parts[2][1]]
+        m = re.match(r"\|\s*(\w+)\s*\|\s*(.+)$", clo, re.S)
+        if not m:
+            raise LostAnchor("fetch_update closure shape in %s" % w.qual())
+        closures.append((m.group(1), m.group(2).strip()))
+        w.replace(h.start(), pc + 1, "counter_fetch_update(%s, Tracked(w))" % h.group(1), "R9",
+                  "AtomicU32::fetch_update(|%s| %s) -> sequential-counter shim; the closure body is verified as a helper" % (m.group(1), m.group(2).strip()))
+    return closures
